@@ -56,6 +56,15 @@ func (fv *FuncVerifier) execStmt(st *State, s ast.Stmt) {
 	if s.Pos().IsValid() {
 		fv.curPos = s.Pos()
 	}
+	if key, ok := fv.stmtSites[s]; ok {
+		// ghost snapshots anchored at a statement ("before if#1 let q = e", "after if#1 let q = e")
+		if cls, ok := fv.contract.BeforeLets[key]; ok {
+			fv.bindLets(st, cls, s.Pos())
+		}
+		if cls, ok := fv.contract.AfterLets[key]; ok {
+			defer func() { fv.bindLets(st, cls, s.End()) }()
+		}
+	}
 	defer func() {
 		switch s.(type) {
 		case *ast.ExprStmt, *ast.AssignStmt, *ast.DeclStmt, *ast.IncDecStmt:
@@ -441,6 +450,8 @@ func (fv *FuncVerifier) execIf(st *State, s *ast.IfStmt) {
 	}
 	c := fv.eval(st, s.Cond)
 	c.T = fv.namePC(c.T)
+	// "after callee#k" directives whose call site is in the condition take effect here, in both branches
+	fv.flushAsserts(st)
 	thenSt := st.clone()
 	thenSt.pc = fv.namePC(and(st.pc, c.T))
 	fv.branch(thenSt)
@@ -1117,6 +1128,9 @@ func (fv *FuncVerifier) flushAsserts(st *State) {
 	fv.pendingAsserts = nil
 	var errs []string
 	for _, key := range keys {
+		if cls, ok := fv.contract.AfterLets[key]; ok {
+			fv.bindLets(st, cls, fv.curPos)
+		}
 		for i, cl := range fv.contract.Asserts[key] {
 			g := fv.ownEnvAt(st, &errs, fv.curPos).eval(cl.Expr)
 			fv.oblige(st, "assert", fmt.Sprintf("after %s [%s] %s", key, clauseName(cl, i), cl.Text), g.T)
@@ -1134,4 +1148,35 @@ func copyIntMap(m map[string]int) map[string]int {
 		out[k] = v
 	}
 	return out
+}
+
+// bindLets evaluates ghost snapshots ("before/after callee#k let name = expr") in the current state and binds
+// them as ghost locals (merged like program variables), readable by name in later contract clauses.
+func (fv *FuncVerifier) bindLets(st *State, cls []Clause, pos token.Pos) {
+	if st.dead {
+		return
+	}
+	var errs []string
+	for _, cl := range cls {
+		g := fv.ownEnvAt(st, &errs, pos).eval(cl.Expr)
+		ty := g.Ty
+		if ty == nil {
+			ty = types.Typ[types.Int]
+			if g.Sort == "Bool" {
+				ty = types.Typ[types.Bool]
+			}
+		}
+		if fv.letVars == nil {
+			fv.letVars = map[string]*types.Var{}
+		}
+		o := fv.letVars[cl.Name]
+		if o == nil {
+			o = types.NewVar(token.NoPos, fv.pkg.Types, cl.Name, ty)
+			fv.letVars[cl.Name] = o
+		}
+		fv.declareVar(st, o, g.T)
+	}
+	if len(errs) > 0 {
+		fv.unsupported("spec errors in let: " + strings.Join(errs, "; "))
+	}
 }
